@@ -12,7 +12,10 @@ CASE_TIMEOUT = 5
 RULE = ('cases: tables of 0-8 rows (thorough 0-12) and 2-4 columns with scalar cells (None, ints incl. adjacent ints beyond 2^53, floats incl. 1 vs 1.0 and float(2**53), NaN, strings, datetimes); keys = every '
         'kind of non-empty proper subset of the columns, duplicate / unique / mixed-type key columns, NaN objects of different identity in key columns. '
         '(1) listby(by) and listby(by).unlist(), (2) groupby(by) (key table, every sub-table) and .ungroup(), incl. the ValueError on all columns, '
-        '(3) xyz(x, y, z, agg) for agg in None/last/first/len/sum with string or small-int y labels and its unpivot(x, y, z). Whole result tables '
+        '(3) xyz(x, y, z, agg) for agg in None/last/first/len/sum, x columns named name/date/key1 passed as a string or as a list, y values that are strings '
+        '(incl. substrings of the x names), multi-digit / negative ints, half-integer floats and mixed int/str (label order as strings differs from the '
+        'value order), and its unpivot(x, y, z); (4) large tables of 101-400 rows with one or two int / mixed-type key columns of few distinct values and a '
+        'row-id column, for listby/unlist and groupby/ungroup. Whole result tables '
         '(columns in name order) are compared with the model inside Coq; the oracle re-derives from the property text: one row per distinct key, cells '
         'list the key\'s values in original order, unlist = stable sort by keys (cells up to ==), group sizes sum to len, ungroup = same multiset of '
         'rows, every pivot cell = agg of the z of exactly the rows with that (x, y) and None elsewhere, unpivot minus None cells = the (x, label, cell) '
@@ -27,12 +30,19 @@ EXPLANATION = ('theorems C11_* (coq/props/C11.v), for every table and key choice
 TRUSTED = ['modelled, not verified: dictable construction / concat / dict_concat plumbing (column order is observed up to sorting), CPython sorted() is stable',
            'the theorems are about the Gallina model (M_group.v); its agreement with _dictable.py is what the correspondence checks']
 ASSUMPTIONS = ['ints are exact at any size (adjacent ints beyond 2^53, 10**30 and float(2**53) are in the key pools); cells are scalars; keys are grouped with cmp(...) == 0 as /repo does since 9228ab2 (any two NaN are one key)', 'key columns are distinct existing names',
-               'pivot: y values are strings or ints 0..9 that do not collide with column names; table non-empty']
+               'pivot: y values are strings, ints or half-integer floats whose labels do not collide with x column names or each other; unpivot is not observed for float y; table non-empty']
 EXHAUSTIVE = {'quick': False, 'thorough': False}
 
 # ------------------------------------------------------------------ Coq side
+LANES = 6
+COQ_PRELUDE = ''.join('Definition run_%s_b%d := run_%s.\n' % (k, i, k) for k in ('listby', 'groupby') for i in range(LANES))
 def coq_runner(case):
-    return {'listby': 'run_listby', 'groupby': 'run_groupby', 'pivot': 'run_pivot'}[case['kind']]
+    k = case['kind']
+    if k == 'pivot':
+        return 'run_pivot_only' if case.get('nounpivot') else 'run_pivot'
+    if 'lane' in case:                       # large tables go to their own cases files so that they are evaluated in parallel
+        return 'run_%s_b%d' % (k, case['lane'] % LANES)
+    return 'run_' + k
 
 AGG = {None: 'ANone', 'last': 'ALast', 'first': 'AFirst', 'len': 'ALen', 'sum': 'ASum'}
 def coq_case(case):
@@ -179,11 +189,16 @@ def label(y):
 
 def impl_pivot(case, t, cols, n, nans):
     x, y, z, a = case['x'], case['y'], case['z'], case['agg']
-    st, P = call(lambda: t.xyz(x if len(x) > 1 else x[0], y, z, py_agg(a)))
+    xarg = list(x) if (len(x) > 1 or case.get('xlist')) else x[0]          # x as a list of names or as one string
+    st, P = call(lambda: t.xyz(xarg, y, z, py_agg(a)))
     if st != 'ok':
         return {'status': st, 'obs': ['ERR', st], 'viol': 'xyz raised %s on %s' % (st, json.dumps(case)[:300])}
-    st2, UP = call(lambda: P.unpivot(x if len(x) > 1 else x[0], y, z))
-    obs = [ctable(P, nans), ctable(UP, nans) if st2 == 'ok' else ['ERR', st2]]
+    if case.get('nounpivot'):
+        st2, UP = 'skip', None
+        obs = [ctable(P, nans)]
+    else:
+        st2, UP = call(lambda: P.unpivot(xarg, y, z))
+        obs = [ctable(P, nans), ctable(UP, nans) if st2 == 'ok' else ['ERR', st2]]
     viol = None
     xkeys = [tuple(t[c][i] for c in x) for i in range(n)]
     labels = []
@@ -191,7 +206,7 @@ def impl_pivot(case, t, cols, n, nans):
         if label(t[y][i]) not in labels: labels.append(label(t[y][i]))
     pk = [tuple(P[c][r] for c in x) for r in range(len(P))]
     f = py_agg(a)
-    if sorted(map(str, P.keys())) != sorted(x + labels):
+    if sorted(map(str, P.keys())) != sorted(map(str, x + labels)):
         viol = 'pivot columns are %s, expected the x columns and one column per y value %s' % (list(P.keys()), labels)
     for r in range(len(P)):
         for h in range(r):
@@ -216,7 +231,7 @@ def impl_pivot(case, t, cols, n, nans):
                     exp = None; okc = got is None
                 if not okc and viol is None:
                     viol = 'pivot cell (x=%r, y=%r) is %r, expected %r' % (pk[r], lb, got, exp)
-    if viol is None:
+    if viol is None and st2 != 'skip':
         if st2 != 'ok':
             viol = 'unpivot raised %s' % st2
         else:
@@ -237,12 +252,66 @@ def nontrivial(case, result):
 def shape(case):
     k = case['kind']
     if k == 'pivot':
-        return 'pivot:x%d:%s' % (len(case['x']), case['agg'])
-    return '%s:by%d/%d' % (k, len(case['by']), len(case['cols']))
+        return 'pivot:x%d%s:%s%s' % (len(case['x']), 'list' if case.get('xlist') else '', case['agg'], ':floaty' if case.get('nounpivot') else '')
+    return '%s:by%d/%d%s' % (k, len(case['by']), len(case['cols']), ':big' if 'lane' in case else '')
 
 # ------------------------------------------------------------------ generation
 def share_nan(cells):
     return [['nan', 0] if (v is not None and v[0] == 'nan') else v for v in cells]
+
+
+XNAMES = ['name', 'date', 'key1']
+YSUB = ['am', 'e', 'a', 'at', 'nam', 'te', 'ey']             # substrings of the x column names (an unpivot that tests `label in x` on a string drops them)
+def rand_pivot(rng, tier):
+    q = tier == 'quick'
+    x = rng.sample(XNAMES, rng.choice([1, 1, 1, 2]))
+    names = list(x) + ['yy', 'zz'] + (['w'] if rng.random() < 0.3 else [])
+    rng.shuffle(names)
+    n = rng.choice([1, 2, 3, 4, 5, 6, 8] if q else [1, 2, 3, 4, 6, 8, 10, 12])
+    agg = rng.choice([None, 'last', 'last', 'first', 'len', 'sum'])
+    ymode = rng.choice(['s', 'subs', 'subs', 'i', 'multi', 'multi', 'neg', 'half', 'mixed', 'mixed'])
+    dense = rng.random() < 0.3                                   # few (x, y) cells, many rows in each
+    if dense: n = rng.choice([5, 6, 8] if q else [6, 8, 12])
+    def ycell():
+        if ymode == 's': return ['s', rng.choice('pqr')]
+        if ymode == 'subs': return ['s', rng.choice(YSUB)]
+        if ymode == 'i': return ['i', rng.randrange(0, 4)]                      # '1' is a substring of 'key1'
+        if ymode == 'multi': return ['i', rng.choice([1, 2, 9, 10, 11, 100])]   # numeric order differs from the order of the labels as strings
+        if ymode == 'neg': return ['i', rng.choice([-11, -2, -1, 0, 3, 10])]
+        if ymode == 'half': return rng.choice([['f', 5], ['f', 21], ['f', -5], ['f', 3], ['f', 201], ['i', 2], ['i', 10]])   # 2.5, 10.5, -2.5, 1.5, 100.5
+        return rng.choice([['s', rng.choice(YSUB + ['p', 'q'])], ['i', rng.choice([1, 2, 10, -3])]])
+    cols = []
+    for c in names:
+        if c == 'yy':
+            cells = [ycell() for _ in range(n)]
+            if dense: cells = [rng.choice(cells[:2]) for _ in range(n)]
+        elif c == 'zz':
+            cells = V.rand_column(rng, n, 'ints' if agg == 'sum' else rng.choice(['ints', 'mixed', 'nums', 'strs', 'none']))[1]
+        elif c in x:
+            cells = V.rand_column(rng, n, 'bin' if dense else rng.choice(['ints', 'ints', 'nums', 'strs', 'mixed', 'numsnan', 'huge']))[1]
+        else:
+            cells = V.rand_column(rng, n)[1]
+        cols.append([c, cells])
+    case = {'kind': 'pivot', 'cols': cols, 'x': x, 'y': 'yy', 'z': 'zz', 'agg': agg}
+    if len(x) == 1 and rng.random() < 0.4:
+        case['xlist'] = True
+    if any(v[0] == 'f' for v in dict(cols)['yy']):
+        case['nounpivot'] = True             # a float y stays a float column key; unpivot would return the float, not its label
+    return case
+
+def rand_big(rng, kind, lane):
+    n = rng.randrange(101, 401)
+    variant = rng.choice(['int1', 'int1', 'int2', 'mixed', 'mixed2'])
+    a = [['i', rng.randrange(0, 5)] for _ in range(n)]
+    if variant.startswith('mixed'):
+        a = [rng.choice([None, ['s', 'x'], ['f', 2 * v[1]]]) if rng.random() < 0.15 else v for v in a]
+    cols = [['a', a], ['v', [['i', i] for i in range(n)]]]
+    by = ['a']
+    if variant in ('int2', 'mixed2'):
+        cols.insert(1, ['b', [['i', rng.randrange(0, 3)] for _ in range(n)]]); by = rng.choice([['a', 'b'], ['b', 'a']])
+    if rng.random() < 0.3:
+        cols.append(['w', [['s', rng.choice('pq')] for _ in range(n)]])
+    return {'kind': kind, 'cols': cols, 'by': by, 'lane': lane}
 
 def gen_cases(rng, tier):
     q = tier == 'quick'
@@ -257,38 +326,22 @@ def gen_cases(rng, tier):
             else:
                 by = rng.sample(names, rng.randrange(1, len(names)))
             cases.append({'kind': kind, 'cols': cols, 'by': by})
-    for _ in range(700 if q else 9000):
-        ncol = rng.choice([3, 3, 4])
-        n = rng.choice([1, 2, 3, 4, 5, 6, 8] if q else [1, 2, 3, 4, 6, 8, 10, 12])
-        names = V.COLS[:ncol]
-        order = rng.sample(names, ncol)
-        nx = 1 if ncol == 3 or rng.random() < 0.5 else 2
-        x, y, z = order[:nx], order[nx], order[nx + 1]
-        agg = rng.choice([None, 'last', 'last', 'first', 'len', 'sum'])
-        cols = []
-        ymode = rng.choice(['s', 's', 'i', 'mixed'])
-        dense = rng.random() < 0.3                                   # few (x, y) cells, many rows in each
-        if dense: n = rng.choice([5, 6, 8] if q else [6, 8, 12])
-        for c in names:
-            if c == y and dense:
-                cells = [['s', rng.choice('ppq')] for _ in range(n)]
-            elif c in x and dense:
-                cells = V.rand_column(rng, n, 'bin')[1]
-            elif c == y:
-                cells = [['s', rng.choice('pqr')] if (ymode == 's' or (ymode == 'mixed' and rng.random() < 0.5)) else ['i', rng.randrange(0, 4)] for _ in range(n)]
-            elif c == z:
-                cells = V.rand_column(rng, n, 'ints' if agg == 'sum' else rng.choice(['ints', 'mixed', 'nums', 'strs', 'none']))[1]
-            elif c in x:
-                cells = V.rand_column(rng, n, rng.choice(['ints', 'ints', 'nums', 'strs', 'mixed', 'numsnan', 'huge']))[1]
-            else:
-                cells = V.rand_column(rng, n)[1]
-            cols.append([c, cells])
-        cases.append({'kind': 'pivot', 'cols': cols, 'x': x, 'y': y, 'z': z, 'agg': agg})
+    for _ in range(800 if q else 9000):
+        cases.append(rand_pivot(rng, tier))
+    for i in range(12 if q else 60):                      # large tables: more than 100 rows, few keys, heavy duplication
+        cases.append(rand_big(rng, 'listby', i))
+        cases.append(rand_big(rng, 'groupby', i))
     return cases
 
 def shrink(case):
     cols = case['cols']; n = len(cols[0][1]) if cols else 0
-    for i in range(n):
+    size = n // 2
+    while size >= 2:                                   # drop blocks of rows first (large tables), then single rows
+        for i in range(0, n, size):
+            yield dict(case, cols=[[c, cells[:i] + cells[i + size:]] for c, cells in cols])
+        size //= 2
+        if n > 60 and size < n // 8: break        # large tables: coarse blocks only (every candidate is a fresh run of the implementation)
+    for i in range(n if n <= 60 else 0):
         if n > 1 or case['kind'] != 'pivot':
             yield dict(case, cols=[[c, cells[:i] + cells[i + 1:]] for c, cells in cols])
     used = set(case.get('by', [])) | set(case.get('x', [])) | {case.get('y'), case.get('z')}
